@@ -100,14 +100,21 @@ def run_case(case, ctx):
     _add_supported_quantized_objects(co)
     results = {}
     for route in ROUTES:
+      holder = {}
+
       def rebuild():
+        # the serialized form is produced once per route and may be consumed more than once (a model
+        # config is routinely passed to from_config several times)
         if route == "from_config":
-          return type(q).from_config(copy.deepcopy(q.get_config()))
-        ser = tf.keras.utils.serialize_keras_object(q)
-        ser = json.loads(json.dumps(ser, default=lambda o: o.tolist() if hasattr(o, "tolist") else float(o)))
+          if "obj" not in holder:
+            holder["obj"] = copy.deepcopy(q.get_config())
+          return type(q).from_config(holder["obj"])
+        if "obj" not in holder:
+          ser = tf.keras.utils.serialize_keras_object(q)
+          holder["obj"] = json.loads(json.dumps(ser, default=lambda o: o.tolist() if hasattr(o, "tolist") else float(o)))
         if route == "get_quantizer_dict":
-          return Q.get_quantizer(ser)
-        return tf.keras.utils.deserialize_keras_object(ser, custom_objects=co)
+          return Q.get_quantizer(holder["obj"])
+        return tf.keras.utils.deserialize_keras_object(holder["obj"], custom_objects=co)
       try:
         q2 = rebuild()
       except Exception as e:  # pylint: disable=broad-except
@@ -122,6 +129,19 @@ def run_case(case, ctx):
       res = qcompare.compare(q, q2, qenv.call, qenv.as_np, case["seed"])
       lost = qcompare.differing_options(q, q2)
       if res["kind"] is None:
+        # the same serialized object a second time: must rebuild the same quantizer again
+        try:
+          q3 = rebuild()
+          res3 = qcompare.compare(q, q3, qenv.call, qenv.as_np, case["seed"]) if type(q3) is type(q) else {"kind": "wrong_class", "detail": type(q3).__name__}
+        except Exception as e:  # pylint: disable=broad-except
+          res3 = {"kind": "raises", "detail": "%s: %s" % (type(e).__name__, str(e)[:160])}
+        ctx.count("second_rebuilds_checked")
+        if res3["kind"] is not None:
+          ctx.violation({"cls": cls, "kind": "second_rebuild_from_same_serialized_object_differs", "route": route,
+                         "effect": res3["kind"]},
+                        "%s(%s): rebuilding twice from one serialized object: 1st equals the original, 2nd: %s" % (
+                            cls, case["kw"], res3.get("detail")),
+                        {"kw": {k: str(v) for k, v in kw.items()}})
         if res.get("float_path"):
           ctx.observe("float_path_difference_<=4ulp", {"cls": cls, "kw": case["kw"], "lost": lost})
         if lost:
